@@ -71,7 +71,15 @@ Inductive case :=
    one of them is nil, whether writing them to a real shard panicked *)
 | CWsr (bs : list bytes) (floats : list (bytes * option N)) (count : N) (has_nil panicked : bool)
 (* escape functions: which, input, output, and unescape(escape(input)) == input on the real code *)
-| CEsc (which : N) (input output : bytes) (roundtrip_ok : bool).
+| CEsc (which : N) (input output : bytes) (roundtrip_ok : bool)
+(* ParsePointsWithPrecision on the line "m v=1 <ts>" (Spec.ts_line) at precision prec *)
+| CTime (ts : bytes) (default_ns : Z) (prec : bytes) (floats : list (bytes * option N)) (o : pobs)
+(* hh.NodeProcessor.WriteShard called concurrently, one call per batch (points given as key,
+   field text, Unix nanoseconds; acked = the call returned nil), then the queue directory
+   reopened and drained single-threaded: the blocks in queue order; drain_ok = the queue was
+   read to its end without an error; panicked = a WriteShard call or the drain panicked *)
+| CHHW (shard : N) (batches : list (list (bytes * bytes * Z) * bool)) (blocks : list bytes)
+       (drain_ok panicked : bool).
 
 Definition oracle (tbl : list (bytes * option N)) (s : bytes) : option N :=
   match find (fun e => bytes_eqb (fst e) s) tbl with Some e => snd e | None => None end.
@@ -154,15 +162,36 @@ Definition isolation_ok (lines : list bytes) (whole : pobs) (per_line : list pob
        && Bool.eqb (pobs_err whole) (existsb pobs_err per_line)
   else true.
 
-(* a structured line means its abstract point *)
+(* a structured line means its abstract point: accepted with the canonical key, the fields and
+   the exact instant (timestamp * unit computed in Z) when that instant is representable;
+   rejected (no point, an error) when it is not *)
 Definition meaning_ok (ap : apoint) (prec : bytes) (dflt : Z) (o : pobs) : bool :=
-  match o with
-  | POk [OP key (FOk fl) nano _ _ _ _ _] false =>
-      bytes_eqb key (spec_key ap)
-      && list_eqb field_eqb fl (a_fields ap)
-      && (nano =? spec_time ap prec dflt)%Z
-  | _ => false
+  match spec_time_verdict ap prec dflt with
+  | Some ns =>
+      match o with
+      | POk [OP key (FOk fl) nano _ _ _ _ _] false =>
+          bytes_eqb key (spec_key ap)
+          && list_eqb field_eqb fl (a_fields ap)
+          && (nano =? ns)%Z
+      | _ => false
+      end
+  | None => match o with POk [] true => true | _ => false end
   end.
+
+(* the line "m v=1 <ts>": when <ts> is one token, it is accepted exactly when Spec.spec_ts_verdict
+   gives an instant, and then the point is measurement m, field v = 1.0, at that instant;
+   otherwise it is rejected.  Text that is not one token (whitespace, quotes...) only must
+   not panic here; such lines are covered by the other checks. *)
+Definition float_one_bits : N := 4607182418800017408.
+Definition ts_obs_ok (ts prec : bytes) (o : pobs) : bool :=
+  if ts_token ts then
+    match spec_ts_verdict ts prec, o with
+    | Some ns, POk [OP key (FOk [(fk, FFloat bits)]) nano _ _ _ _ _] false =>
+        (nano =? ns)%Z && bytes_eqb key [109] && bytes_eqb fk [118] && (bits =? float_one_bits)
+    | None, POk [] true => true
+    | _, _ => false
+    end
+  else match o with PPanic => false | _ => true end.
 
 Fixpoint meanings_ok (aps : list (option apoint)) (prec : bytes) (dflt : Z) (os : list pobs) : bool :=
   match aps, os with
@@ -187,6 +216,80 @@ Definition model_escape (which : N) (x : bytes) : bytes :=
   | 9 => unescape_string_field x
   | _ => []
   end.
+
+(* ---- concurrent hinted-handoff writes ---- *)
+Fixpoint remove_first {A} (eqb : A -> A -> bool) (x : A) (l : list A) : option (list A) :=
+  match l with
+  | [] => None
+  | y :: r => if eqb x y then Some r
+              else match remove_first eqb x r with Some r' => Some (y :: r') | None => None end
+  end.
+(* remove every element of [xs] once from [l]; None when one is missing *)
+Fixpoint remove_all {A} (eqb : A -> A -> bool) (xs l : list A) : option (list A) :=
+  match xs with
+  | [] => Some l
+  | x :: xs' => match remove_first eqb x l with Some l' => remove_all eqb xs' l' | None => None end
+  end.
+(* [found] is, as a multiset, the acknowledged items plus some of the unacknowledged ones, each
+   at most once: nothing acknowledged is missing, nothing appears twice, nothing is foreign *)
+Definition exactly_once {A} (eqb : A -> A -> bool) (acked unacked found : list A) : bool :=
+  match remove_all eqb acked found with
+  | Some rest => match remove_all eqb rest unacked with Some _ => true | None => false end
+  | None => false
+  end.
+
+Fixpoint all_some {A} (l : list (option A)) : option (list A) :=
+  match l with
+  | [] => Some []
+  | Some x :: r => match all_some r with Some r' => Some (x :: r') | None => None end
+  | None :: _ => None
+  end.
+
+Definition tm_eqb (a b : tm) : bool :=
+  ((t_sec a =? t_sec b) && (t_nsec a =? t_nsec b))%Z && Bool.eqb (t_utc a) (t_utc b).
+Definition point_eqb (a b : point) : bool :=
+  bytes_eqb (p_key a) (p_key b) && bytes_eqb (p_fields a) (p_fields b) && tm_eqb (p_time a) (p_time b).
+
+Definition hw_point (x : bytes * bytes * Z) : point :=
+  let '(k, f, ns) := x in mk_point k f (tm_of_unix_nano ns).
+Definition hw_batch (b : list (bytes * bytes * Z) * bool) : list point := map hw_point (fst b).
+Definition hw_acked (bs : list (list (bytes * bytes * Z) * bool)) : list (list point) :=
+  map hw_batch (filter (fun b => snd b) bs).
+Definition hw_unacked (bs : list (list (bytes * bytes * Z) * bool)) : list (list point) :=
+  map hw_batch (filter (fun b => negb (snd b)) bs).
+
+Definition no_float (_ : bytes) : option N := None.
+
+(* a queue block read back: the shard id and the points it decodes to (unmarshalWrite, then
+   NewPointFromBytes as the receiving node does) *)
+Definition hw_decode (shard : N) (blk : bytes) : option (list point) :=
+  match unmarshal_write blk with
+  | Ok (sh, pbs, true) =>
+      if sh =? shard
+      then all_some (map (fun pb => match new_point_from_bytes no_float pb with Ok p => Some p | _ => None end) pbs)
+      else None
+  | _ => None
+  end.
+
+(* spec: the queue could be read to its end, every block decodes, and the decoded batches are
+   exactly the acknowledged ones (any order), each once *)
+Definition hw_spec_ok (shard : N) (bs : list (list (bytes * bytes * Z) * bool)) (blocks : list bytes)
+           (drain_ok panicked : bool) : bool :=
+  negb panicked && drain_ok &&
+  match all_some (map (hw_decode shard) blocks) with
+  | Some decoded => exactly_once (list_eqb point_eqb) (hw_acked bs) (hw_unacked bs) decoded
+  | None => false
+  end.
+
+(* model of WriteShard for a batch below the segment size: one block, marshalWrite of the batch;
+   concurrent calls append their blocks in some order *)
+Definition hw_small (pts : list point) : bool :=
+  (Z.of_nat (length (marshal_write 0 pts)) <=? c04_default_segment_size)%Z.   (* hh.defaultSegmentSize, re-read from the source *)
+Definition hw_agree (shard : N) (bs : list (list (bytes * bytes * Z) * bool)) (blocks : list bytes)
+           (drain_ok panicked : bool) : bool :=
+  negb panicked && drain_ok
+  && forallb hw_small (map hw_batch bs)
+  && exactly_once bytes_eqb (map (marshal_write shard) (hw_acked bs)) (map (marshal_write shard) (hw_unacked bs)) blocks.
 
 Definition check_case (c : case) : N :=
   match c with
@@ -238,4 +341,9 @@ Definition check_case (c : case) : N :=
       code agree (negb has_nil && negb panicked)
   | CEsc which input output rt =>
       code (bytes_eqb (model_escape which input) output) rt
+  | CHHW shard bs blocks drain_ok panicked =>
+      code (hw_agree shard bs blocks drain_ok panicked) (hw_spec_ok shard bs blocks drain_ok panicked)
+  | CTime ts dflt prec floats o =>
+      code (parse_agrees (oracle floats) false (ts_line ts) dflt prec o)
+           (pobs_ok o && ts_obs_ok ts prec o)
   end.
